@@ -188,6 +188,70 @@ theorem C15_field_segmentation (b : Bytes) (ops₁ ops₂ : List FOp) (h : feeds
       · show (fsClose _ _ _ _).buf = (fsClose _ _ _ _).buf
         rw [h1.2.1, ← h, h2.2.1]
 
+/-
+Full-strength statements of DESIGN §5 that are *not* proved here (they are not known to be false;
+the composition of the proved pieces over the whole state machine was not carried out):
+
+  C15_exact:        ∀ boundary fields pre epi script, wellFormed fields → bytesOf script = encode boundary fields pre epi →
+                    fieldsOf (run Cfg.fixed (fuelFor script) (initSys boundary form limit [] script)) = fields ∧ status = EOF
+                    (limit large enough for every header block / boundary line)
+  C15_segmentation: ∀ script₁ script₂, bytesOf script₁ = bytesOf script₂ → neither run ends in Overflow →
+                    fieldsOf (run … script₁) = fieldsOf (run … script₂)
+
+What is proved instead: the content of every part under every feeding schedule (`C15_exact_partial`,
+`C15_segmentation_partial` below = `C15_field_exact`, `C15_field_segmentation`), the stability of every
+line/header-block decision under continuation (`C15_line_stable`), that `poll_stream` only moves bytes
+towards the buffer in order (`rem` is preserved: `pollStream_mu`), termination and the buffer bound for
+the whole machine.  The whole-machine statements are checked on every run by the correspondence and by
+the independent oracles (generator ground truth; same bytes re-cut whole / byte-wise).
+-/
+
+/-- the part of `C15_exact` that is proved: exact content of a part, any schedule (see above) -/
+theorem C15_exact_partial (b : Bytes) (ops : List FOp) (c r : Bytes)
+    (h : splitDelim b (feedsOf ops) = some (c, r)) :
+    let s := fsClose Cfg.fixed b ((feedsOf ops).length + 1) (ops.foldl (fsOp Cfg.fixed b) ⟨[], [], none⟩)
+    s.out = c ∧ s.buf = r ∧ s.done = some none := by
+  have := C15_field_exact b ops
+  simp only [h] at this
+  exact this
+
+/-- the part of `C15_segmentation` that is proved: same bytes, any two schedules ⇒ same content,
+same outcome, same rest (see above) -/
+theorem C15_segmentation_partial (b : Bytes) (ops₁ ops₂ : List FOp) (h : feedsOf ops₁ = feedsOf ops₂) :
+    let run := fun ops => fsClose Cfg.fixed b ((feedsOf ops).length + 1)
+      (ops.foldl (fsOp Cfg.fixed b) ⟨[], [], none⟩)
+    (run ops₁).done = (run ops₂).done ∧
+      ((run ops₁).done = some none → (run ops₁).out = (run ops₂).out ∧ (run ops₁).buf = (run ops₂).buf) :=
+  C15_field_segmentation b ops₁ ops₂ h
+
+/-- **C15_stream_order.** `poll_stream` never loses, duplicates or reorders input: the bytes not yet
+parsed (buffer ++ kept-back rest ++ script) are the same before and after, for every variant of the code. -/
+theorem C15_stream_order (cfg : Cfg) (pb pb' : PB) (w : Bool) (h : pollStream cfg pb = .ok (pb', w)) :
+    rem pb' = rem pb :=
+  (pollStream_mu h).1
+
+/-- **C15_poll_content** (whole `PayloadBuffer`, any limit / budget / kept-back rest). After any
+`poll_stream`, a chunk that `read_stream` hands out is exactly the next piece of the part's content
+according to the grammar applied to *all input not yet parsed* — the buffer, the kept-back rest of the
+last chunk and everything the stream has not delivered yet (`rem`). -/
+theorem C15_poll_content (b : Bytes) (pb pb' : PB) (w : Bool) (n : Nat)
+    (hp : pollStream Cfg.fixed pb = .ok (pb', w))
+    (hr : readStream Cfg.fixed pb'.buf pb'.eof b = .data n) :
+    splitDelim b (rem pb) =
+      (splitDelim b (rem { pb' with buf := pb'.buf.drop n })).map
+        (fun cr => (pb'.buf.take n ++ cr.1, cr.2)) := by
+  rw [← C15_stream_order Cfg.fixed pb pb' w hp]
+  exact (C15_scan_content b pb'.buf (pendBytes pb' ++ tokBytes pb'.script) pb'.eof n hr).2.2
+
+/-- **C15_poll_end.** …and a field is ended only when all input not yet parsed starts with a delimiter. -/
+theorem C15_poll_end (b : Bytes) (pb pb' : PB) (w : Bool)
+    (hp : pollStream Cfg.fixed pb = .ok (pb', w))
+    (hr : readStream Cfg.fixed pb'.buf pb'.eof b = .fin) :
+    splitDelim b (rem pb) = some ([], rem pb) := by
+  rw [← C15_stream_order Cfg.fixed pb pb' w hp]
+  have h1 := readStream_fin (cfg := Cfg.fixed) rfl hr
+  exact splitDelim_here (h1.trans (List.prefix_append _ _))
+
 /-- two different schedules for the same bytes `d CR LF - - B`: all at once, or cut after `CR LF - -`
 with polls in between (the F5 situation) -/
 example : feedsOf [.feed [100, 13, 10, 45, 45, 66], .poll] =
